@@ -216,7 +216,7 @@ func execFresh(prop string, raw json.RawMessage, cfg workerCfg) (sig, what strin
 	select {
 	case err := <-done:
 		if err != nil {
-			if strings.Contains(se.String(), "fatal error:") && !strings.Contains(se.String(), "HARNESS-TROUBLE") {
+			if (strings.Contains(se.String(), "fatal error:") || strings.Contains(se.String(), "\npanic: ") || strings.HasPrefix(se.String(), "panic: ")) && !strings.Contains(se.String(), "HARNESS-TROUBLE") {
 				return "process-crash", "re-executing the case in a fresh process kills it: " + fatalLine(se.String()), nil
 			}
 			return "", "", fmt.Errorf("exec failed: %v: %s", err, tail(se.String(), 2000))
@@ -638,7 +638,7 @@ func isRaceCase(raw json.RawMessage) bool {
 // fatalLine extracts the "fatal error: ..." line of a Go runtime abort.
 func fatalLine(stderr string) string {
 	for _, l := range strings.Split(stderr, "\n") {
-		if strings.Contains(l, "fatal error:") {
+		if strings.Contains(l, "fatal error:") || strings.HasPrefix(l, "panic: ") {
 			return strings.TrimSpace(l)
 		}
 	}
@@ -649,7 +649,9 @@ func fatalLine(stderr string) string {
 // stream is a pure function of seed, tier and worker index) and return it as a violation candidate; the usual
 // fresh-process confirmation then decides whether it is reported.
 func crashCase(cfg workerCfg, w int, pre, stderr string) *evid.Violation {
-	if !strings.Contains(stderr, "fatal error:") {
+	// a Go fatal error, or a panic that nothing could recover: in a goroutine the library or gorgonia started, or in
+	// the harness's own tensor construction once the process-wide tensor pool has been corrupted
+	if !strings.Contains(stderr, "fatal error:") && !strings.Contains(stderr, "\npanic: ") && !strings.HasPrefix(stderr, "panic: ") {
 		return nil
 	}
 	jb, err := os.ReadFile(pre + ".journal")
@@ -669,7 +671,7 @@ func crashCase(cfg workerCfg, w int, pre, stderr string) *evid.Violation {
 	if err != nil {
 		return nil
 	}
-	return &evid.Violation{Property: cfg.Prop, Signature: "process-crash", What: "the worker executing this case was killed by the Go runtime: " + fatalLine(stderr), Case: raw}
+	return &evid.Violation{Property: cfg.Prop, Signature: "process-crash", What: "the worker executing this case was killed by the Go runtime: " + fatalLine(stderr), Case: raw, Seq: seq, W: w}
 }
 
 // historyCase: "re-execute worker W's case stream up to case Seq" (see the NOT-REPRODUCED fallback in run).
